@@ -925,7 +925,9 @@ fn gen_c11(seed: u64, idx: usize, _tier: Tier) -> (RunScenario, C11Extra) {
     let mut rng = Rng::new(scenario_seed(seed, "C11", idx));
     let n = rng.range(1, 8);
     let ncmd = rng.range(1, 3);
-    let cmds: Vec<String> = COMMANDS[..ncmd].iter().map(|s| s.to_string()).collect();
+    // command names may themselves contain a dot: `lint.fix` is defined by `lint.fix.sh`, not by `lint.sh`
+    let pool = ["build", "lint.fix", "test", "fmt"];
+    let cmds: Vec<String> = pool[..ncmd].iter().map(|s| s.to_string()).collect();
     let mut targets = vec![];
     let mut cmd_files = vec![];
     let mut files = vec![];
@@ -967,7 +969,8 @@ fn gen_c11(seed: u64, idx: usize, _tier: Tier) -> (RunScenario, C11Extra) {
                     cmd_files.push(CmdFile { target: path.clone(), command: c.clone(), rel: format!("{}/{}.{}", cdir, c, ext), exec: true });
                 }
                 _ => {
-                    let ext = *rng.pick(&["sh", "py", "rb", ""]);
+                    // an extension-less file `lint.fix` has the stem `lint`: it would not define `lint.fix`
+                    let ext = if c.contains('.') { *rng.pick(&["sh", "py", "rb"]) } else { *rng.pick(&["sh", "py", "rb", ""]) };
                     let rel = if ext.is_empty() { format!("{}/{}", cdir, c) } else { format!("{}/{}.{}", cdir, c, ext) };
                     cmd_files.push(CmdFile { target: path.clone(), command: c.clone(), rel, exec: true });
                 }
@@ -997,6 +1000,10 @@ fn gen_c11(seed: u64, idx: usize, _tier: Tier) -> (RunScenario, C11Extra) {
             files.push((format!("{}/keep.txt", path), "x".into()));
         }
         targets.push(t);
+    }
+    // declaration order is not lexicographic order
+    if rng.chance(2, 3) {
+        rng.shuffle(&mut targets);
     }
     let spec = WorldSpec { targets, cmd_files, files, sequences: vec![], max_retained_runs: 2, gitignore: vec![], git: true };
     let mut opts = RunOpts::default();
